@@ -15,6 +15,8 @@ import (
 	"vh/kit"
 	"vh/oracle"
 	"vh/simapi"
+
+	"sigs.k8s.io/controller-runtime/pkg/client"
 )
 
 // Profile tunes the random scenario generator for the property a check focuses on.
@@ -34,6 +36,13 @@ type Profile struct {
 	Retention   bool    // run the retention phase after a rollback
 	Affinity    int     // -1 random, 0 nodeName mode, 1 affinity mode
 	MaxNodes    int
+	// PodFaults: probability that a pod create/delete issued by a controller is rejected (0 = none)
+	PodFaults   float64
+	// EDSFaults: probability that a write of the EDS controller to the ExtendedDaemonSet object
+	// (status update or spec update) is rejected
+	EDSFaults   float64
+	// Burst: extra weight of back-to-back replica-set reconcile requests at +0 / +0.4s / freq-1s
+	Burst       float64
 }
 
 // Sim is the scenario engine: one case = one generated history.
@@ -176,6 +185,22 @@ func (e *Sim) Run(ctx *core.Ctx, idx int) {
 	for i := 0; i < nNodes; i++ {
 		w.AddNode(genNode(r, fmt.Sprintf("n%d", i)))
 	}
+	if e.P.PodFaults > 0 || e.P.EDSFaults > 0 {
+		fr := rand.New(rand.NewSource(r.Int63()))
+		pf, ef := e.P.PodFaults, e.P.EDSFaults
+		w.S.Fault = func(c *simapi.Call) simapi.FaultKind {
+			if w.Coop || w.faultsSuspended > 0 {
+				return simapi.NoFault
+			}
+			if c.Kind == simapi.KindPod && (c.Verb == "create" || c.Verb == "delete") && fr.Float64() < pf {
+				return simapi.Reject
+			}
+			if c.Kind == simapi.KindEDS && c.IsWrite() && c.Actor == "eds-controller" && fr.Float64() < ef {
+				return []simapi.FaultKind{simapi.Reject, simapi.LostReply}[fr.Intn(2)]
+			}
+			return simapi.NoFault
+		}
+	}
 	sh := genShape(r)
 	strat, ckind := genStrategy(r, e.P)
 	type edsRef struct{ ns, name string }
@@ -305,6 +330,33 @@ func (e *Sim) action(w *World, r *rand.Rand, ns, name string, sh shape, edits ma
 			}
 		}},
 		{1, func() { w.Reconcile("podtemplate", ns, name) }},
+		{p.Burst, func() {
+			// a burst of requests for one replica set at +0, +0.4s, freq-1s, freq
+			var own []string
+			for _, rs := range kit.RSs(w.S) {
+				if rs.Namespace == ns {
+					own = append(own, rs.Name)
+				}
+			}
+			if len(own) == 0 {
+				return
+			}
+			rsName := own[r.Intn(len(own))]
+			freq := 10 * time.Second
+			if ed := kit.GetEDS(w.S, ns, name); ed != nil && ed.Spec.Strategy.ReconcileFrequency != nil {
+				freq = ed.Spec.Strategy.ReconcileFrequency.Duration
+			}
+			w.Reconcile("ers", ns, rsName)
+			w.Reconcile("ers", ns, rsName)
+			w.Advance(400 * time.Millisecond)
+			w.Reconcile("ers", ns, rsName)
+			if freq > time.Second+400*time.Millisecond {
+				w.Advance(freq - time.Second - 400*time.Millisecond)
+				w.Reconcile("ers", ns, rsName)
+			}
+			w.Advance(time.Second)
+			w.Reconcile("ers", ns, rsName)
+		}},
 		{5, func() { w.KubeletStep() }},
 		{5, func() {
 			ds := []time.Duration{0, 400 * time.Millisecond, time.Second, 9 * time.Second, 10 * time.Second, 11 * time.Second, 30 * time.Second, 61 * time.Second, 2 * time.Minute, 5 * time.Minute, 11 * time.Minute}
@@ -324,6 +376,21 @@ func (e *Sim) action(w *World, r *rand.Rand, ns, name string, sh shape, edits ma
 			}
 			w.SetTemplate(ns, name, t)
 			edits[k]++
+		}},
+		{p.Edits / 3, func() {
+			// the user changes the number of canary replicas while a canary may be running
+			reps := []intstr.IntOrString{intstr.FromInt(1), intstr.FromInt(2), intstr.FromInt(3), intstr.FromString("50%"), intstr.FromString("25%")}
+			rep := reps[r.Intn(len(reps))]
+			ok := false
+			w.S.Mutate(simapi.KindEDS, ns, name, func(o client.Object) {
+				if c := o.(*v1.ExtendedDaemonSet).Spec.Strategy.Canary; c != nil {
+					c.Replicas = &rep
+					ok = true
+				}
+			})
+			if ok {
+				w.tracef("user: set canary replicas of %s/%s to %s", ns, name, rep.String())
+			}
 		}},
 		{p.Holds, func() {
 			keys := []string{v1.ExtendedDaemonSetRollingUpdatePausedAnnotationKey, v1.ExtendedDaemonSetRolloutFrozenAnnotationKey, v1.ExtendedDaemonSetCanaryPausedAnnotationKey, v1.ExtendedDaemonSetCanaryUnpausedAnnotationKey}
@@ -426,4 +493,3 @@ func (e *Sim) action(w *World, r *rand.Rand, ns, name string, sh shape, edits ma
 	}
 }
 
-var _ = simapi.KindPod
